@@ -145,6 +145,20 @@ Definition eff_fixed (a : algo) (n : nat) (fixed : list nat) : list nat :=
 Definition modes_list (a : algo) (n : nat) (fixed : list nat) : list nat :=
   filter (fun m => negb (memb m (eff_fixed a n fixed))) (seq 0 n).
 
+(* non_negative_parafac_hals, before calling initialize_cp (commit 3d55b5c): when init is a user CP tensor and the last mode is
+   fixed, `free_modes = [mode for mode in range(n_modes) if mode not in fixed_modes]` and
+     if free_modes and not all(init_weights == 1): init_factors[free_modes[-1]] *= reshape(init_weights, (1, -1)); init = (None, init_factors)
+   i.e. the weights go into the last UPDATED mode and the fixed last factor is left as supplied *)
+Section HalsInit.
+  Context {F : Type} (one : F) (mul : F -> F -> F) (eqb : F -> F -> bool).
+  Definition init_hals (R n : nat) (fixed : list nat) (w : option (list F)) (fs : list (@matrix F)) : list F * list (@matrix F) :=
+    let w' := match w with None => ones one R | Some v => v end in
+    let free := modes_list NNHals n fixed in
+    if memb (n - 1) fixed && negb (Nat.eqb (length free) 0) && negb (all_ones one eqb w')
+    then init_cp one mul eqb R None (absorb_at mul (last free 0) w' fs)
+    else init_cp one mul eqb R w fs.
+End HalsInit.
+
 (* the hooks below exist in parafac only (orthogonalise, linesearch; mask / sparsity live in the error computation) *)
 Definition has_hooks (a : algo) : bool := match a with Parafac => true | _ => false end.
 
